@@ -97,6 +97,12 @@ SCENARIOS: list[tuple[str, list[list]]] = [
                                         ["set", "i0", "killed", "rB"], ["set", "i0", "killed", "rA"], ["set", "i0", "rerouted", "rB"], ["set", "i0", "pending", "rB"],
                                         ["set", "i0", "running", "rB"], ["set", "i0", "paused", "rB"], ["set", "i0", "resumed", "rA"], ["set", "i0", "resumed", "rB"],
                                         ["set", "i0", "success", "rB"], ["set", "i0", "failed", "rB"], ["set", "g0", "pending", "rA"]]),
+    ("late waiter on a finished invocation, then auto-purge",
+     [["call", "tA", "a", "d", None], ["call", "tB", "a", "x", None], ["call", "tB", "b", "x", None], *_life("i0", "rA"), ["wait", "i1", ["i0"]], ["wait", "i2", ["i1"]],
+      ["adv", "purge", -2], ["apurge"], ["adv", "purge", 0], ["apurge"], ["wait", "i2", ["i1"]], ["set", "i1", "pending", "rB"]]),
+    ("auto-purge mark on an awaited, unfinished invocation",
+     [["call", "tA", "a", "d", None], ["call", "tB", "a", "x", None], ["call", "tB", "b", "x", None], ["wait", "i1", ["i0"]], ["wait", "i2", ["i1"]], ["pset", "i0"],
+      ["adv", "purge", 0], ["apurge"], ["set", "i1", "pending", "rB"], ["set", "i1", "running", "rB"]]),
     ("purge and re-use", [*BUSY, ["result", "i0", "v1"], ["cds.put", "p", True], ["cds.put", "q", False], ["purge", "app"], ["call", "tA", "a", "d", None], ["hb", ["rA"], False],
                           ["purge", "cds"], ["cds.put", "p", True], ["purge", "orch"], ["call", "tB", "b", "x", None], ["set", "i3", "pending", "rA"]]),
 ]
